@@ -22,7 +22,7 @@ PROPS = {
     "C01": {
         "level": "exploration",
         "technique": "rapid property tests: round-trip + differential against an independent CBOR encoder/decoder; item-level mutation; native coverage-guided fuzzing (thorough)",
-        "level_text": "Generated valid bundles are serialised, compared byte for byte with an independent encoder, parsed, compared field-wise and re-serialised; accepted mutants and fuzz inputs go through the parse->serialise->parse fixed-point oracle. Exploration is the right level: the domain is unbounded, the oracle is exact. The same bundles are also parsed while the routing block types are unregistered (generic round trip), and dtn-tool's create/show are driven in-process. The parser's verdict and result must not depend on how the io.Reader chunks the bytes (one byte at a time, cyclic short reads).",
+        "level_text": "Generated valid bundles are serialised, compared byte for byte with an independent encoder, parsed, compared field-wise and re-serialised; accepted mutants and fuzz inputs go through the parse->serialise->parse fixed-point oracle. Exploration is the right level: the domain is unbounded, the oracle is exact. The same bundles are also parsed while the routing block types are unregistered (generic round trip), and dtn-tool's create/show are driven in-process. The parser's verdict and result must not depend on how the io.Reader chunks the bytes (one byte at a time, cyclic short reads). In half of the cases the codec has just failed in the same process (failed serialisation inside a block, broken writer, truncated parse); unknown type codes include codes that alias known ones in their low bits.",
         "level_note": "trusts the harness' own 300-line CBOR reader/writer and CRCs (self-tested against published check values); Go's native fuzzer cannot be seeded",
         "assumptions": [
             "custom block types (spray, DTLSR, PRoPHET, signature) are registered through the public ExtensionBlockManager, as dtnd does",
@@ -56,7 +56,7 @@ PROPS = {
     "C02": {
         "level": "exploration",
         "technique": "rapid property tests + enumeration: rule-violating edits of valid encodings (CRCs recomputed) judged by an independent BPv7 rule validator; producer outputs (builder sequences, BuildFromMap, Fragment/Reassemble, node-generated bundles) validated and re-parsed",
-        "level_text": "accept => rules: every edit kind x variant is enumerated on several seeds, pairs/triples and item-level mutants are random; produced => rules and accepted: random builder call sequences, JSON argument maps, fragmentation outputs. The validator is an independent re-implementation of exactly the rules in the statement. Node-generated bundles: on a real node per routing algorithm every bundle handed to a convergence layer or agent (status reports, pongs, routing metadata, broadcasts, forwarded bundles) is validated the same way. ",
+        "level_text": "accept => rules: every edit kind x variant is enumerated on several seeds, pairs/triples and item-level mutants are random; produced => rules and accepted: random builder call sequences, JSON argument maps, fragmentation outputs. The validator is an independent re-implementation of exactly the rules in the statement. Node-generated bundles: on a real node per routing algorithm every bundle handed to a convergence layer or agent (status reports, pongs, routing metadata, broadcasts, forwarded bundles) is validated the same way.  Hop counts beyond 8 bit that look harmless once truncated.",
         "level_note": "trusts the harness' rule validator (about 200 lines) and CBOR reader; expiry is not judged within 5 s of the expiry instant (the code reads its own clock)",
         "assumptions": ["endpoint validity = documented grammar (dtn:none, //node/demux with node over [A-Za-z0-9._-], demux without line break; ipn numbers >= 1); checked for the three primary-block endpoints and the previous-node block"],
         "units": [
@@ -116,7 +116,7 @@ PROPS = {
     "C11": {
         "level": "exploration",
         "technique": "exhaustive (length, segment size) grid + rapid property tests over back-to-back TransferManagers + enumerated peer faults; validity predicate over the segment train and 'success => delivered once, identical'",
-        "level_text": "All (L, m) pairs for L up to 160/400 are enumerated, so every divisor case m | L occurs; real bundles (padded to multiples of m) are transferred between two managers, also concurrently in both directions; a scripted peer enumerates every position for stopped acknowledgements, refusals, wrong acknowledgements and manager shutdown. Real TCP and WebSocket sessions on loopback (listener-created client under a real cla.Manager) carry bundles of exactly 1 and 2 segments of the 1 MiB MRU +-1 byte in both directions, sequentially and concurrently, with session loss followed by a further Send; a spin-barrier stress makes Send calls of one session overlap. The session stage between connection and transfer manager must keep the order of up to 3000 received segments whatever the pace of its consumer; every XFER_REFUSE reason code must make Send fail.",
+        "level_text": "All (L, m) pairs for L up to 160/400 are enumerated, so every divisor case m | L occurs; real bundles (padded to multiples of m) are transferred between two managers, also concurrently in both directions; a scripted peer enumerates every position for stopped acknowledgements, refusals, wrong acknowledgements and manager shutdown. Real TCP and WebSocket sessions on loopback (listener-created client under a real cla.Manager) carry bundles of exactly 1 and 2 segments of the 1 MiB MRU +-1 byte in both directions, sequentially and concurrently, with session loss followed by a further Send; a spin-barrier stress makes Send calls of one session overlap. The session stage between connection and transfer manager must keep the order of up to 3000 received segments whatever the pace of its consumer; every XFER_REFUSE reason code must make Send fail. The connection is cut after every number of bytes of the acknowledgements' direction (exactly behind the last XFER_ACK repeatedly): success only with every acknowledgement byte, and success implies the hand-up; over two real nodes hand-ups >= successful transmissions per bundle.",
         "level_note": "the 'stops acknowledging' fault relies on the implementation's own 10 s timeout; a missing hand-up is awaited 5 s (expected latency: microseconds). The segment MRU of a socket session is fixed at 1 MiB by Client.Start. The concurrent stress is schedule-dependent (statistical).",
         "assumptions": ["segment size >= 1 (size 0 belongs to C04)"],
         "units": [
@@ -159,7 +159,7 @@ PROPS = {
     "C04": {
         "level": "exploration",
         "technique": "structured boundary-value enumeration of every length/count field + truncation at every offset, run in disposable child processes with an allocation and time oracle; native coverage-guided fuzzing per decoder (thorough)",
-        "level_text": "For each decoder valid messages are generated and every position at which a length or count is read is set to each of the 11 boundary values (one at a time and sampled pairs), plus every truncation; each input runs in a disposable child (6 GiB address-space limit) that reports allocation and time, so process death, escaping panics, hangs and allocation proportional to an unarrived length are all observable. Decoder targets use the decoded value as the node does (String, ID, JSON, record accessors); inputs include items replaced by items of another CBOR type with CRCs re-computed, status-item arrays of every length, and hostile records fed to a real node. One genuine finding (xz index allocation reached through BBC) is listed in known_findings.json, attributed by call site and excluded from the fuzz campaign by construction.",
+        "level_text": "For each decoder valid messages are generated and every position at which a length or count is read is set to each of the 11 boundary values (one at a time and sampled pairs), plus every truncation; each input runs in a disposable child (6 GiB address-space limit) that reports allocation and time, so process death, escaping panics, hangs and allocation proportional to an unarrived length are all observable. Decoder targets use the decoded value as the node does (String, ID, JSON, record accessors); inputs include items replaced by items of another CBOR type with CRCs re-computed, status-item arrays of every length, and hostile records fed to a real node. One genuine finding (xz index allocation reached through BBC) is listed in known_findings.json, attributed by call site and excluded from the fuzz campaign by construction. Every subset of a valid build request; every head of small inputs at each value 0..40.",
         "level_note": "allocation budget 4 MiB + 256 x len(input) (16 MiB for BBC because of the xz dictionary); cboring's documented pre-allocation of up to 1 MiB for a declared string is inside the budget; inputs up to 64 KiB",
         "assumptions": ["a panic recovered by the code's own recover() in the MTCP handlers drops the connection as designed and is not a violation"],
         "units": [
@@ -201,7 +201,7 @@ PROPS = {
     "C14": {
         "level": "exploration",
         "technique": "stateful rapid property test on a real Core with scripted convergence layers and agents (node simulator); ID-uniqueness oracle over wire bytes and store contents",
-        "level_text": "Groups of bundles with coinciding source and creation time are submitted through every submission path, sequentially and concurrently, with and without connected peers, across retry ticks and an orderly restart; the oracle inspects the bytes handed to the scripted convergence layers and the store after every step. 2..8 goroutines released together assign thousands of IDs for one (source, creation time) through IdKeeper.update and through Core.SendBundle. Groups also cover application-preset sequence numbers, applications submitting fragments, gaps in the stored sequence numbers (some bundles delivered before a restart) and a second group re-using the first group's creation time.",
+        "level_text": "Groups of bundles with coinciding source and creation time are submitted through every submission path, sequentially and concurrently, with and without connected peers, across retry ticks and an orderly restart; the oracle inspects the bytes handed to the scripted convergence layers and the store after every step. 2..8 goroutines released together assign thousands of IDs for one (source, creation time) through IdKeeper.update and through Core.SendBundle. Groups also cover application-preset sequence numbers, applications submitting fragments, gaps in the stored sequence numbers (some bundles delivered before a restart) and a second group re-using the first group's creation time. Creation times stamped by the application in the past (100 s, 50 min) and in the future, a creation time used again after another one, and submissions that do not return are reported.",
         "level_note": "creation times are 'now' or the epoch (the IdKeeper forgets older non-epoch timestamps by design); node-generated status reports are covered by C15's scenarios",
         "assumptions": ["cron jobs are unregistered and played as explicit events"],
         "units": [
@@ -212,7 +212,7 @@ PROPS = {
     "C05": {
         "level": "exploration",
         "technique": "stateful rapid property test on the node simulator with a reference model of 'accepted, not yet transmitted' + store inspection after every event; forced interleaving of concurrent failure reports through a schedule hook",
-        "level_text": "Event histories (submissions, receptions, peers appearing/disappearing, send outcomes, retry and cleaning ticks, restarts) are played on a real Core per routing algorithm; after every event the store's pending items are compared with the model and the per-peer send logs are checked for the destination and epidemic clauses. Concurrent failure reports are forced into the read-read-write-write order. An exhaustive product of circumstances around a restart (creation-time kind x bundles before/after x restarts) and an unforced rendezvous of 4..12 simultaneously failing transmissions complete the histories. Status reports and unknown administrative records in transit (inspect-all option on/off) are carried like any other bundle; under epidemic routing a bundle may only leave the store once its destination node has it; histories include fragments and peers connected over two convergence layers.",
+        "level_text": "Event histories (submissions, receptions, peers appearing/disappearing, send outcomes, retry and cleaning ticks, restarts) are played on a real Core per routing algorithm; after every event the store's pending items are compared with the model and the per-peer send logs are checked for the destination and epidemic clauses. Concurrent failure reports are forced into the read-read-write-write order. An exhaustive product of circumstances around a restart (creation-time kind x bundles before/after x restarts) and an unforced rendezvous of 4..12 simultaneously failing transmissions complete the histories. Status reports and unknown administrative records in transit (inspect-all option on/off) are carried like any other bundle; under epidemic routing a bundle may only leave the store once its destination node has it; histories include fragments and peers connected over two convergence layers. End to end, two real nodes joined by a real TCPCLv4 session whose connection a forwarder cuts at chosen bytes: every submitted bundle reaches the other node's application or is still pending in a store, whatever happened to the link; retry ticks that meet 'delivered' reports about the same bundles must not crash the node; one bundle in six has a lifetime that ends while it waits.",
         "level_note": "cron jobs are played as explicit events (an asynchronous tick in the middle of an event is not explored); lifetimes of one hour, so expiry never interferes; bounded-exhaustive enumeration of short histories is replaced by random histories of 3..16 events",
         "assumptions": ["a bundle may leave the store once any convergence layer reported a successful transmission (as the statement says)"],
         "units": [
@@ -239,7 +239,7 @@ PROPS = {
     "C06": {
         "level": "exploration",
         "technique": "rapid property test on the node simulator: block-by-block differential between the accepted encoding and the bytes serialised inside the scripted convergence layer, with the independent CBOR reader; time bracket for the age growth",
-        "level_text": "Generated bundles are received by a real Core, wait for a generated residence time, and are transmitted (with 0..2 failing attempts first); every captured transmission is diffed against the accepted encoding. Refusal cases (hop limit, lifetime by time or by age, unsupported block demanding deletion) must neither be transmitted nor kept.",
+        "level_text": "Generated bundles are received by a real Core, wait for a generated residence time, and are transmitted (with 0..2 failing attempts first); every captured transmission is diffed against the accepted encoding. Refusal cases (hop limit, lifetime by time or by age, unsupported block demanding deletion) must neither be transmitted nor kept. Runs of adjacent unknown blocks flagged for removal; end to end on two real nodes the delivered copy has hop count 1, the submitter as previous node and a bracketed age.",
         "level_note": "no fake clock: residence times are real sleeps (0..1500 ms), age growth is judged against a bracket of harness clock readings (+-2 ms), expiry within 60 ms of the instant is not asserted; block order is not asserted",
         "assumptions": ["bundles are received ones (locally submitted ones get their sequence number from the node, C14)"],
         "units": [
@@ -250,7 +250,7 @@ PROPS = {
     "C15": {
         "level": "exploration",
         "technique": "exhaustive flag x outcome matrix on the node simulator; every emitted administrative record decoded independently and matched against the harness' event log (history oracle); feedback of reports for the cascade clause",
-        "level_text": "Every admissible cell of {request flags} x {time} x {fragment} x {outcome} x {report-to peer/self} is played on a fresh node (thorough: per algorithm). Each status report that leaves the node or reaches an agent must be well-formed, correctly addressed, reference the exact ID, and be justified by an earlier logged event and a request. Reports are fed back to show that no report is generated about a report. Outcomes include events that happen on a retry from the store (forwarded later, failing then succeeding, hop limit exceeded later), and each (status, reason) is reported at most once per event; report-to may also be a local endpoint with another node name or the node name of one of two listeners of a convergence-layer type.",
+        "level_text": "Every admissible cell of {request flags} x {time} x {fragment} x {outcome} x {report-to peer/self} is played on a fresh node (thorough: per algorithm). Each status report that leaves the node or reaches an agent must be well-formed, correctly addressed, reference the exact ID, and be justified by an earlier logged event and a request. Reports are fed back to show that no report is generated about a report. Outcomes include events that happen on a retry from the store (forwarded later, failing then succeeding, hop limit exceeded later), and each (status, reason) is reported at most once per event; report-to may also be a local endpoint with another node name or the node name of one of two listeners of a convergence-layer type. A supported neighbour of the unknown block carrying report/delete flags entitles to nothing; over two real nodes the reports that come back are requested, truthful, correctly addressed and at most one per accepted copy.",
         "level_note": "flag combinations the parser rejects (administrative record + request flags) cannot be received and are not part of the matrix; the quick tier plays every third cell (offset by the seed)",
         "assumptions": ["the report-to node is a connected peer so that reports leave immediately"],
         "units": [
@@ -261,7 +261,7 @@ PROPS = {
     "C07": {
         "level": "exploration",
         "technique": "stateful rapid property tests with a reference mailbox model: agent level (real MuxAgent + RestAgent + WebSocketAgent + mock/ping agents) and node level (simulator); forced deliver-during-fetch interleavings through schedule hooks",
-        "level_text": "Histories of register / unregister / deliver / fetch / connect / close are executed against the real agents; a marker bundle per endpoint is the barrier; after every fetch and at the end each client's received multiset must equal the model's. At node level bundles for registered endpoints must reach every matching agent once and no peer. The two lost-update interleavings of deliver and fetch on one REST mailbox are forced by hooks; agents leaving a MuxAgent while a hand-over waits for a slow sibling must neither duplicate nor lose deliveries; a delivery made from inside a fetch's ResponseWriter (after the handler's mailbox work, before its answer) must neither be lost nor overwrite a fetched bundle; bundles (status reports included) arriving for an endpoint registered before or only after their arrival are handed over at most once and are done with afterwards.",
+        "level_text": "Histories of register / unregister / deliver / fetch / connect / close are executed against the real agents; a marker bundle per endpoint is the barrier; after every fetch and at the end each client's received multiset must equal the model's. At node level bundles for registered endpoints must reach every matching agent once and no peer. The two lost-update interleavings of deliver and fetch on one REST mailbox are forced by hooks; agents leaving a MuxAgent while a hand-over waits for a slow sibling must neither duplicate nor lose deliveries; a delivery made from inside a fetch's ResponseWriter (after the handler's mailbox work, before its answer) must neither be lost nor overwrite a fetched bundle; bundles (status reports included) arriving for an endpoint registered before or only after their arrival are handed over at most once and are done with afterwards. An application that is busy for seconds while several deliveries for it start at once; two real nodes over a real TCPCLv4 session; two daemons built by dtnd's own parseCore from generated TOML files with applications speaking HTTP only.",
         "level_note": "WebSocket clients are real connections to an httptest server on loopback; REST requests go through the router without a socket",
         "assumptions": ["a REST client that unregisters loses its mailbox (as the handler documents)"],
         "units": [
@@ -278,7 +278,7 @@ PROPS = {
     "C18": {
         "level": "exploration",
         "technique": "stateful rapid property test on the node simulator with a copy-budget ledger model fed by the peers' observations; forced concurrent failure reports through a schedule hook",
-        "level_text": "Histories of submissions, receptions with k copies, peer churn, failing and succeeding transmissions (also to the directly connected destination) and retry ticks are played for L = 1..8 and up to 6 peers; the ledger is computed only from bytes and outcomes seen by the scripted peers, never from the algorithm's own map. Histories include orderly restarts, fragments and own bundles handed back by a relay; a real dialed TCPCLv4 session that breaks in mid-transfer must give the copy back like a scripted failure does.",
+        "level_text": "Histories of submissions, receptions with k copies, peer churn, failing and succeeding transmissions (also to the directly connected destination) and retry ticks are played for L = 1..8 and up to 6 peers; the ledger is computed only from bytes and outcomes seen by the scripted peers, never from the algorithm's own map. Histories include orderly restarts, fragments and own bundles handed back by a relay; a real dialed TCPCLv4 session that breaks in mid-transfer must give the copy back like a scripted failure does. Duplicate receptions of held bundles change nothing; the node also runs in a fresh child process (own registrations only).",
         "level_note": "spray metadata lives in memory: after a restart the node may have forgotten copies (the 'no copy lost' closing phase is skipped then) but must never hand out more than its budget; the closing phase (vanilla) connects all peers to show that no copy was lost",
         "assumptions": ["bundles originated at this node have budget L; received ones one copy (vanilla) or the announced count (binary)"],
         "units": [
@@ -291,7 +291,7 @@ PROPS = {
     "C19": {
         "level": "exploration",
         "technique": "rapid property tests: range/monotonicity invariants over long update sequences with extreme constants; forwarding predicate on observed values via the node simulator; aliasing probe and concurrent stress for the crash clause",
-        "level_text": "Up to 5000-step sequences of encounters, ageing ticks and received vectors with constants and values at 0, 1, denormals and 1-2^-53 are run on the real update functions with invariants after every step; the strict-inequality forwarding rule is checked on a real Core for every ordering incl. ties and unknown peers, judged against the peers' latest advertised vectors (several vectors per peer); a kept metadata bundle must not change after hand-over (deterministic stand-in for the serialisation race) and a multi-goroutine stress must not kill the process.",
+        "level_text": "Up to 5000-step sequences of encounters, ageing ticks and received vectors with constants and values at 0, 1, denormals and 1-2^-53 are run on the real update functions with invariants after every step; the strict-inequality forwarding rule is checked on a real Core for every ordering incl. ties and unknown peers, judged against the peers' latest advertised vectors (several vectors per peer); a kept metadata bundle must not change after hand-over (deterministic stand-in for the serialisation race) and a multi-goroutine stress must not kill the process. The stress runs on a node that knows 3000 others; the node also runs in a fresh child process, alone and underneath a sensor mule, and must understand a peer's vector.",
         "level_note": "the crash clause is schedule-dependent: the aliasing probe makes the shared-map defect deterministic, the stress run is best effort (3 s / 20 s)",
         "assumptions": ["configuration constants and received predictabilities in [0,1] (premise of the statement)"],
         "units": [
@@ -305,7 +305,7 @@ PROPS = {
     "C20": {
         "level": "exploration",
         "technique": "differential rapid property test: the node's routing table against an independent Floyd-Warshall over the link-state graph the node holds; validity predicate for next hops; arrival-order model for link-state updates",
-        "level_text": "Generated link-state graphs (own neighbours through real peer events, other nodes' link state through real DTLSR-block bundles in generated arrival orders) are fed to a real Core; after the recompute job the table must be a least-cost table for some instant in the bracket of clock readings, with next hops among the node's own neighbours; unicast bundles must only go to that next hop. The node's own link-state broadcast must be handed exactly once to every connected neighbour, also to one connected over two convergence layers.",
+        "level_text": "Generated link-state graphs (own neighbours through real peer events, other nodes' link state through real DTLSR-block bundles in generated arrival orders) are fed to a real Core; after the recompute job the table must be a least-cost table for some instant in the bracket of clock readings, with next hops among the node's own neighbours; unicast bundles must only go to that next hop. The node's own link-state broadcast must be handed exactly once to every connected neighbour, also to one connected over two convergence layers. The node also runs in a fresh child process (own registrations only), alone and underneath a sensor mule.",
         "level_note": "lost links of the node itself are 0..20 ms old (real waits), received ones arbitrary; loss times in the future (clock skew) are outside the domain; the exhaustive enumeration of all graphs on 4 nodes is replaced by random graphs",
         "assumptions": ["several correct next hops may exist: a validity predicate is checked, not one expected answer"],
         "units": [
